@@ -22,6 +22,7 @@ type schedWorld struct {
 	w     *wm.World
 	infos []*resource.Info
 	admin bool
+	eval  [][2]string // pod pairs queried through an engine filled object by object
 }
 
 // podsWorld: workloads given as Pod documents sharing a controller ownerReference (a dump of a live cluster). The pods of
@@ -49,7 +50,12 @@ func podsWorld() schedWorld {
 	infos = append(infos, wm.Express(w.WLs[1], "PodsExtraOwner", 1)...)
 	infos = append(infos, wm.Express(api2, "Pods", 2)[1])
 	infos = append(infos, wm.Express(w.WLs[2], "Deployment", 1)...)
-	return schedWorld{w: w, infos: infos}
+	// a second policy on every pod that allows all ingress: with it, whether a query by port name errs on the first policy's
+	// numbered ports or is allowed depends on which of the two policies is looked at first
+	allowAll := wm.NP{NS: "ns1", Name: "allow-all-ingress", PodSel: wm.Sel{}, Types: []string{"Ingress"}, Ingress: []wm.NPRule{{}}}
+	infos = append(infos, wm.InfoNP(&allowAll))
+	w.NPs = append(w.NPs, allowAll)
+	return schedWorld{w: w, infos: infos, eval: [][2]string{{"ns1/cli-1", "ns1/web-pod0"}, {"ns1/web-pod1", "ns1/api-pod0"}, {"ns1/api-pod1", "ns1/cli-1"}, {"10.1.2.3", "ns1/web-pod2"}}}
 }
 
 type point struct {
@@ -225,7 +231,7 @@ func runWith(wi int, devs map[int]func(n int) []int) ([]Output, []point, string)
 	}
 	defer func() { zzmapsched.Sched = nil }()
 	sw := schedWs[wi]
-	out := AllOutputs(sw.infos, otherInfos(), sw.admin, nil)
+	out := AllOutputs(sw.infos, otherInfos(), sw.admin, sw.eval)
 	return out, pts, diverged
 }
 
